@@ -155,14 +155,14 @@ def check_C01(tier, seed):
         for b in bad:
             scripts.append([mk("create", snap=bases["min"]), mk("update", t=1, snap=b), mk("create", snap=b), mk("fixpoint", t=1)])
         rnd = random.Random(seed)
-        nrand = 100 if tier == "quick" else 1500
+        nrand = 200 if tier == "quick" else 1500
         rscripts = []
         for k in range(nrand):
             a, b = random_snapshot(rnd, k), random_snapshot(rnd, k + 100000)
             rscripts.append([mk("create", snap=a), mk("fixpoint", t=1), mk("update", t=1, snap=b), mk("fixpoint", t=1), mk("create", snap=b),
                              mk("fixpoint", t=2)])
         ws = []
-        schemas = vlib.quick_schemas(seed) if tier == "quick" else vlib.ALL
+        schemas = vlib.REPR + checks_pick(seed, 2) if tier == "quick" else vlib.ALL
         for s in schemas:
             ws.append(Workload(s, scripts, [], origin=res["instance"], per_shard=500))
             ws.append(Workload(s, rscripts, [], tag="r", origin="seed-chosen values", per_shard=500))
@@ -208,15 +208,15 @@ def check_C06(tier, seed):
             return ops
 
         ws = []
-        schemas = vlib.quick_schemas(seed) if tier == "quick" else vlib.ALL
-        npairs = 250 if tier == "quick" else 4000
+        schemas = vlib.REPR + checks_pick(seed, 2) if tier == "quick" else vlib.ALL
+        npairs = 600 if tier == "quick" else 4000
         for s in schemas:
             r = random.Random(seed * 7 + vlib.ALL.index(s))
             sc = [script(sq, "full", False) for sq in singles] + [script(sq, "min", False) for sq in singles]
             sc += [script(sq, r.choice(["full", "full", "sentinels", "edge"]), r.random() < 0.5) for sq in r.sample(pairs, min(npairs, len(pairs)))]
             ws.append(Workload(s, sc, [], flags={"stale_get": False}, origin=res["instance"], per_shard=500))
         # (R) longer seed-chosen setter sequences over three tracks
-        nr = 25 if tier == "quick" else 300
+        nr = 40 if tier == "quick" else 300
         for s in schemas:
             r = random.Random(seed * 13 + vlib.ALL.index(s))
             sc = []
